@@ -171,6 +171,8 @@ func init() {
 		r := &vfReq{Method: "POST", Path: "/idp/oauth2/token", Header: map[string]string{}}
 		if opt(st.L, "auth", "header") == "header" && secret != "" {
 			r.Basic = &[2]string{url.QueryEscape(st.B), url.QueryEscape(secret)}
+		} else if opt(st.L, "auth", "header") == "header-empty" {
+			r.Basic = &[2]string{url.QueryEscape(st.B), ""} // client named in the Authorization header, empty password
 		} else {
 			form.Set("client_id", st.B)
 			if secret != "" {
@@ -181,6 +183,9 @@ func init() {
 		p.call = w.prepare(r)
 		p.intent.Op = "oidc_token"
 		p.intent.Token = &vfTokenReq{Art: a, Client: st.B, Secret: opt(st.L, "secret", "right"), Verifier: opt(st.L, "verifier", "absent"), SameRedirect: redirect == a.Redirect}
+		if opt(st.L, "auth", "header") == "header-empty" {
+			p.intent.Token.Secret = "absent" // whatever the plan said about the secret: this request carries none
+		}
 		return p
 	}
 	// A: artefact presented as bearer access token; L: via:header|form
@@ -816,7 +821,7 @@ func genTokenPlan(r *rand.Rand, tier, focus string) *vfPlan {
 				if chance(r, 0.2) {
 					by = pick(r, clients)
 				}
-				tl := []string{"secret:right", "verifier:absent", "redirect:same", "auth:" + pick(r, []string{"header", "form"})}
+				tl := []string{"secret:right", "verifier:absent", "redirect:same", "auth:" + pick(r, []string{"header", "form", "header", "form", "header-empty"})}
 				if m == "S256" || m == "plain" {
 					tl[1] = "verifier:right"
 				}
@@ -840,7 +845,7 @@ func genTokenPlan(r *rand.Rand, tier, focus string) *vfPlan {
 				art = "last:" + pick(r, kinds)
 			}
 			l := []string{"secret:" + pick(r, []string{"right", "right", "wrong", "absent"}), "verifier:" + pick(r, []string{"absent", "absent", "right", "wrong", "challenge"}),
-				"redirect:" + pick(r, []string{"same", "same", "same", "other", "extend", "hostsuffix"}), "auth:" + pick(r, []string{"header", "form"})}
+				"redirect:" + pick(r, []string{"same", "same", "same", "other", "extend", "hostsuffix"}), "auth:" + pick(r, []string{"header", "form", "header-empty"})}
 			if cl == "clientB" || cl == "clientD" {
 				l[0] = "secret:absent"
 				l[1] = "verifier:" + pick(r, []string{"right", "right", "wrong", "absent", "challenge"})
